@@ -8,7 +8,7 @@ LAYER_NAMES = ('LA', 'LB', 'LC', 'LD', 'LE', 'LF', 'LG')
 
 GOOD_KINDS = ('pass', 'skip_deco', 'skip_setup', 'skip_body', 'xfail')
 BAD_KINDS = ('fail', 'error', 'error_setup', 'error_teardown', 'error_both', 'fail_teardown',
-             'cleanup_error', 'uxsuccess', 'subtests', 'sysexit')
+             'cleanup_error', 'uxsuccess', 'subtests', 'sysexit', 'error_sig', 'cleanup_noncallable')
 ALL_KINDS = GOOD_KINDS + BAD_KINDS
 
 SIMPLE_EXCS = ('ValueError', 'KeyError', 'CustomError', 'RuntimeError', 'TypeError', 'OSError')
@@ -37,6 +37,8 @@ def layer_dags(draw, max_layers=5, min_layers=0, hooks='any', faults=None, nie=F
                                 st.lists(st.sampled_from(HOOKS), unique=True)))
             hk = sorted(hk, key=HOOKS.index)
         L = {'name': names[i], 'kind': draw(st.sampled_from(kinds)), 'bases': bases, 'hooks': hk}
+        if L['kind'] == 'inst' and draw(st.integers(0, 5)) == 0:
+            L['falsy'] = True     # an instance layer that is false in a boolean context (an empty container)
         layers.append(L)
     if faults or nie:
         faults = faults or {}
@@ -150,6 +152,8 @@ def shaped_world(draw, kinds=('pass', 'pass', 'fail', 'error', 'skip_body'), exc
     DAGs almost never hit together: a tear-down *sweep* in the middle of the run that meets a failing tearDown and a
     NotImplementedError tearDown, two layers sharing a base whose setUp fails, layers left set up when the rest of the
     run moves to subprocesses."""
+    if draw(st.integers(0, 2)) == 0:
+        return draw(multibase_world(kinds=kinds, excs=excs, nie=nie))
     with_le = draw(st.booleans())
     layers = [
         {'name': 'LA', 'kind': 'class', 'bases': [], 'hooks': ['setUp', 'tearDown']},
@@ -164,10 +168,11 @@ def shaped_world(draw, kinds=('pass', 'pass', 'fail', 'error', 'skip_body'), exc
     kind = draw(st.sampled_from(['class', 'class', 'inst']))
     # half of the worlds follow a scenario (exactly the named hooks are faulty), the others draw every hook independently
     scenario = draw(st.sampled_from(['random', 'random', 'random', 'sweep-exc+nie', 'sweep-nie+exc', 'shared-base-setup',
-                                     'nie-with-base-left', 'derived-setup']))
+                                     'nie-with-base-left', 'derived-setup', 'derived-setup+base-nie']))
     plan = {'sweep-exc+nie': {'LC': 'td-exc', 'LA': 'td-nie'}, 'sweep-nie+exc': {'LC': 'td-nie', 'LA': 'td-exc'},
             'shared-base-setup': {'LA': 'su-exc'}, 'nie-with-base-left': {'LB': 'td-nie'},
-            'derived-setup': {'LB': 'su-exc'}}.get(scenario)
+            'derived-setup': {'LB': 'su-exc'},
+            'derived-setup+base-nie': {'LB': 'su-exc', 'LA': 'td-nie'}}.get(scenario)
     for L in layers:
         L['kind'] = kind
         f = {}
@@ -193,6 +198,30 @@ def shaped_world(draw, kinds=('pass', 'pass', 'fail', 'error', 'skip_body'), exc
     if draw(st.integers(0, 3)) == 0:
         cases_.append({'t': 'c', 'name': 'TC9', 'tests': draw(tests_list(kinds=kinds, max_tests=2, excs=excs))})
     return {'layers': layers, 'modules': [{'name': 'a', 'tree': {'t': 's', 'ch': cases_}}], 'shaped': scenario}
+
+
+@st.composite
+def multibase_world(draw, kinds=('pass', 'pass', 'fail', 'error', 'skip_body'), excs=SIMPLE_EXCS, nie=True):
+    """Three independent base layers, one layer combining all three (in a generated order of bases), further layers
+    (or tests of their own) on some of the bases; names are a generated permutation, so which of them runs first varies.
+    One hook somewhere is faulty: the situations in which a fault while building / unbuilding one stack must not touch
+    a layer that another stack shares."""
+    names = draw(st.permutations(LAYER_NAMES))
+    kind = draw(st.sampled_from(['class', 'class', 'inst']))
+    order = draw(st.permutations([0, 1, 2]))
+    layers = [{'name': names[i], 'kind': kind, 'bases': [], 'hooks': ['setUp', 'tearDown']} for i in range(3)]
+    layers.append({'name': names[3], 'kind': kind, 'bases': list(order), 'hooks': ['setUp', 'tearDown']})
+    others = draw(st.lists(st.integers(0, 2), min_size=1, max_size=3, unique=True))
+    for k, b in enumerate(others):
+        layers.append({'name': names[4 + k], 'kind': kind, 'bases': [b], 'hooks': ['setUp', 'tearDown']})
+    victim = draw(st.sampled_from([0, 1, 2, 0, 1, 2, 3]))
+    how = draw(st.sampled_from(['su-exc', 'su-exc', 'td-exc', 'td-nie' if nie else 'td-exc']))
+    layers[victim]['faults'] = ({'setUp': draw(st.sampled_from(SIMPLE_EXCS))} if how == 'su-exc' else
+                                {'tearDown': 'NIE' if how == 'td-nie' else draw(st.sampled_from(SIMPLE_EXCS))})
+    with_tests = list(range(3, len(layers))) + [i for i in range(3) if draw(st.integers(0, 3)) == 0]
+    cases_ = [{'t': 'c', 'name': 'TC%d' % (i + 1), 'layer': i,
+               'tests': draw(tests_list(kinds=kinds, max_tests=2, excs=excs, weights_good=70))} for i in sorted(with_tests)]
+    return {'layers': layers, 'modules': [{'name': 'a', 'tree': {'t': 's', 'ch': cases_}}], 'shaped': 'multi-base'}
 
 
 def iter_tests(spec):
